@@ -233,6 +233,25 @@ pub fn plain_cases(ctx: &Ctx, spec: &FarmSpec, col: &mut Collected, w_single: us
     }
 }
 
+/// histories d1, (a document without children), d3: a position present / absent / present again
+pub fn absent_middle_cases(ctx: &Ctx, spec: &FarmSpec, col: &mut Collected, w: usize, structure_only: bool) {
+    let mut cfg = plain_cfg(w);
+    cfg.kinds = if structure_only { vec![] } else { vec![Kind::Text] };
+    if structure_only {
+        cfg.anames = vec![];
+    }
+    cfg.both_empty = false;
+    let sp = Space::new(cfg);
+    let alpha: Vec<Node> = (0..sp.len()).map(|i| sp.get(i)).filter(|n| data_oriented(n, false)).collect();
+    let mut middle = Node::new("r");
+    middle.self_closing = true;
+    for a in &alpha {
+        for b in &alpha {
+            col.add(ctx, spec, &[decorated(a), middle.clone(), decorated(b)]);
+        }
+    }
+}
+
 fn el(name: &str, attrs: &[&str], items: Vec<Item>) -> Node {
     let mut n = Node::new(name);
     for a in attrs {
@@ -357,10 +376,13 @@ pub fn run_spec(ctx: &Ctx, spec: &FarmSpec, names: &[PoolName]) {
     match ctx.tier {
         Tier::Quick => {
             plain_cases(ctx, spec, &mut col, 4, 2, 2);
+            absent_middle_cases(ctx, spec, &mut col, 2, true);
             name_cases(ctx, spec, &mut col, names, false);
         }
         Tier::Thorough => {
             plain_cases(ctx, spec, &mut col, 5, 2, 2);
+            absent_middle_cases(ctx, spec, &mut col, 2, false);
+            absent_middle_cases(ctx, spec, &mut col, 3, true);
             name_cases(ctx, spec, &mut col, names, true);
             // triples of the smallest documents
             plain_cases(ctx, spec, &mut col, 0, 1, 3);
@@ -405,7 +427,7 @@ pub fn run(ctx: &Ctx) {
     run_spec(ctx, &spec, &pool(&[]));
     ctx.set(
         "rule",
-        json!("cases: every data-oriented document of the plain space (element content = one text/CDATA item, or children, or nothing; also whitespace between children), every ordered pair (thorough: also triples) of small documents as parse+extend history, and fixed templates instantiated with every name of the adversarial pool and with collision-prone pairs (thorough: all pairs); every site carries a distinct value. Cases are rendered with the quick-xml preset and deduplicated by rendered source: one program per distinct text (distinct_nontrivial = programs). Each program is compiled by rustc unchanged behind `use serde::{Deserialize, Serialize};`, once as is and once with #[serde(deny_unknown_fields)] on every struct, and quick_xml::de::from_str::<FirstStruct> runs on each source document; the leaf strings of the value (collected through its Serialize impl) must include every attribute value and every non-blank text content, unescaped and trimmed. evaluations = (program, variant, document) executions"),
+        json!("cases: every data-oriented document of the plain space (element content = one text/CDATA item, or children, or nothing; also whitespace between children), every ordered pair (thorough: also triples) of small documents as parse+extend history, every triple d1, <r/>, d3 (a position present, absent, present again), and fixed templates instantiated with every name of the adversarial pool and with collision-prone pairs (thorough: all pairs); every site carries a distinct value. Cases are rendered with the quick-xml preset and deduplicated by rendered source: one program per distinct text (distinct_nontrivial = programs). Each program is compiled by rustc unchanged behind `use serde::{Deserialize, Serialize};`, once as is and once with #[serde(deny_unknown_fields)] on every struct, and quick_xml::de::from_str::<FirstStruct> runs on each source document; the leaf strings of the value (collected through its Serialize impl) must include every attribute value and every non-blank text content, unescaped and trimmed. evaluations = (program, variant, document) executions"),
     );
     ctx.assume("rustc 1.95 / serde 1.0.229 / quick-xml 0.37.5 with features serialize + overlapped-lists are the oracles");
 }
